@@ -4,6 +4,7 @@ from ..unit import run_unit
 from .. import camp_props, common
 from ..units.penalty import Penalty
 from ..units.loop import Loop
+from ..units.tau import ComputeTau
 
 PROP_FILES = ["props/C06.v"]
 TECHNIQUE = "Coq proof + regenerated structural facts + correspondence"
@@ -12,7 +13,7 @@ TECHNIQUE = "Coq proof + regenerated structural facts + correspondence"
 def run(rep, tier, seed, scratch):
     g = Gen(seed)
     common.facts_obligations(rep, 'C06', scratch)
-    for u in (Penalty(), Loop()):
+    for u in (Penalty(), Loop(), ComputeTau()):
         run_unit(rep, u, u.gen(g, tier), scratch)
     camp_props.run_single(rep, 'C06', tier, seed, 60, 500)
     # single precision: every dtype-dependent path (empty blocks, fast paths) on data that is exact in binary32
